@@ -24,7 +24,7 @@ package caskettls
 //@   loop 1 invariant forall(k, #i, len(configs), configs[k] == old(configs[k]))
 //@   loop 1 invariant forall(k, 0, #i, configs[k].Enabled == configs[0].Enabled)
 
-//@ unit qualifies props=C15 filter=`caskettls\.QualifiesForManagedTLS$`
+//@ unit qualifies frames=on props=C15 filter=`caskettls\.QualifiesForManagedTLS$`
 //@ extern invoke:(github.com/tmpim/casket/caskettls.ConfigHolder).TLSConfig
 //@   pure
 //@ extern invoke:(github.com/tmpim/casket/caskettls.ConfigHolder).Port
